@@ -77,6 +77,11 @@ fn main() {
                 None => println!("{}", serde_json::to_string_pretty(&out).unwrap()),
             }
         }
+        "meta" => {
+            let prop = arg(&args, "--prop").expect("--prop");
+            let def = reg.iter().find(|d| d.id == prop).expect("unknown property");
+            println!("{}", serde_json::json!({"rule": def.rule, "assumptions": def.assumptions}));
+        }
         "gencorpus" => {
             // writes scenarios sampled from a part's generator as JSON files (seed corpus of the fuzzer)
             use proptest::strategy::{Strategy, ValueTree};
